@@ -6,8 +6,10 @@ CONSTANTS
   Header = "first"
   Merge = "grid"
   Sep = "each"
+  Dedup = "none"
   MaxSpecial = 1
   FullCells = 3
+  MaxRepeat = 3
 INVARIANTS TypeOK RoundTrip HeadingLevelOK
 PROPERTIES PrefixStable Terminates
 CONSTRAINT EmitCase
